@@ -239,3 +239,22 @@ pub fn b2048ed_roundtrip() {
     assert!(d == v && off == 257);
     kani::cover!(true);
 }
+
+// C14 / C08: the key of the pending pool is the pair (signer, nonce): its encoding - 20 address bytes followed by the 8
+// big-endian nonce bytes - sorts exactly as the pair does (address bytes first, then the nonce), which the range scan
+// [(signer, 0), (signer, u64::MAX)) of txpool_contentFrom and the drain of brc20_transact depend on
+#[kani::proof]
+#[kani::unwind(30)]
+pub fn addr_nonce_key_order() {
+    let a1: [u8; 20] = kani::any();
+    let n1: u64 = kani::any();
+    let a2: [u8; 20] = kani::any();
+    let n2: u64 = kani::any();
+    let k1: (AddressED, U64ED) = (a1.into(), n1.into());
+    let k2: (AddressED, U64ED) = (a2.into(), n2.into());
+    let e1 = k1.encode_vec();
+    let e2 = k2.encode_vec();
+    assert!(e1.len() == 28 && e2.len() == 28);
+    assert!(lex_lt(&e1, &e2) == ((a1, n1) < (a2, n2)));
+    kani::cover!(true);
+}
